@@ -222,7 +222,7 @@ fn fuzz_mix(u: &mut Unstructured) {
                 }
             });
         }
-        Ok(MCase { rc_family: u.arbitrary()?, fallback_only: u.arbitrary()?, kinds, init, ops })
+        Ok(MCase { rc_family: u.arbitrary()?, fallback_only: u.arbitrary()?, kinds, init, ops, cont_first: u.arbitrary()?, consume: u.arbitrary()? })
     })();
     let Ok(c) = r else { return };
     if let Err(m) = run_case(&c) {
